@@ -416,8 +416,12 @@ def gen_malformed(seed, n):
         if not to_eof:
             suf = [l for l in gen_sequence(rnd, 4) if l["cls"] != "version"]
             sep = rnd.choice([" ", "\n", " \n", ";", " ;"]) if cls != "version" else rnd.choice([" ", "\n"])
-            if cls == "empty_exponent" or cls == "empty_int":
-                sep = rnd.choice([" ", "\n", ";", ")"])
+            if cls == "empty_int":
+                # whatever follows that cannot supply the missing digits: also `.`, an exponent marker, operators
+                sep = rnd.choice([" ", "\n", ";", ")", ".", ".5 ", ".. ", "+1 ", "- ", "* ", "/ ", ",", ": ", "] ", "[ ", "} ", "= ", "< "]
+                                 + ([] if bad.lower().startswith("0x") else ["e3 ", "E+1 "]))    # e/E are digits in base 16
+            elif cls == "empty_exponent":
+                sep = rnd.choice([" ", "\n", ";", ")", ". ", ",", ": ", "] ", "* ", "/ ", "= ", "} "])
             suftext, _ = layout(rnd, suf)
             after = sep + suftext
         # the separator before it: required when the previous lexeme could be extended
